@@ -159,6 +159,9 @@ class RecEnv:
         return self.inner.params
     def read(self):
         return self.inner.read()
+    def __iter__(self):
+        # coba's ChunkTasks looks through an environment's pipes for a shared Chunk marker: show the wrapped pipeline
+        return iter(self.inner)
 
 class RecLearner:
     def __init__(self, tag, inner):
@@ -200,8 +203,17 @@ def read_side(side_path):
         return [tuple(int(x) for x in ln.split()) for ln in f.read().decode().splitlines() if ln.strip()]
 
 # ------------------------------------------------------------------------------------------------ builder
-def make_env(d):
+def make_env(d, groups=None):
+    """groups: per-build dict; environments whose descriptor names the same "group" are shuffles of ONE chunk()ed base and
+    share its Chunk pipe, which is what makes coba put their tasks into one chunk"""
     k = d["kind"]
+    if "group" in d:
+        key = (d["group"], d["n"], d["na"], d["seed"], d.get("ncf", 2), d.get("naf", 2))
+        groups = {} if groups is None else groups
+        if key not in groups:
+            groups[key] = Environments.from_linear_synthetic(d["n"], n_actions=d["na"], n_context_features=d.get("ncf", 2),
+                                                             n_action_features=d.get("naf", 2), seed=d["seed"]).chunk()
+        return groups[key].shuffle(d["shuffle"])[0]
     if k == "empty":
         return EmptyEnv(d.get("label", 0))
     if k == "grid":
@@ -255,7 +267,8 @@ def assigned_ids(desc):
     return out
 
 def build_triples(desc, side_path):
-    envs = [RecEnv(i, make_env(d)) for i, d in enumerate(desc["envs"])]
+    groups = {}
+    envs = [RecEnv(i, make_env(d, groups)) for i, d in enumerate(desc["envs"])]
     lrns = [RecLearner(i, make_lrn(d)) for i, d in enumerate(desc["lrns"])]
     vals = [RecEvaluator(i, make_val(d), side_path) for i, d in enumerate(desc["vals"])]
     return [(envs[e], lrns[l], vals[v]) for e, l, v in triple_indices(desc)], desc.get("description")
@@ -263,7 +276,8 @@ def build_triples(desc, side_path):
 def build_args(desc, side_path):
     """(args, kwargs) for Experiment(...): the cross-product form where the descriptor asks for it, else a tuple list"""
     if desc["shape"] == "cross":
-        envs = [RecEnv(i, make_env(d)) for i, d in enumerate(desc["envs"])]
+        groups = {}
+        envs = [RecEnv(i, make_env(d, groups)) for i, d in enumerate(desc["envs"])]
         lrns = [RecLearner(i, make_lrn(d)) for i, d in enumerate(desc["lrns"])]
         vals = [RecEvaluator(i, make_val(d), side_path) for i, d in enumerate(desc["vals"])]
         return (envs, lrns, vals), {"description": desc.get("description")}
